@@ -10,4 +10,7 @@ type rawPathVariable struct {
 	parameters      []PathParameter
 	pathDirective   directive.Directive // to detect and display an error
 	parentDirective directive.Directive
+	// parent is the parent of the Path directive in the directive tree, it
+	// identifies the place of the Path directive.
+	parent *directive.Directive
 }
